@@ -242,6 +242,16 @@ type cycEmbed struct {
 	X int
 }
 
+type recArrSlice [][2]recArrSlice
+
+type cycArr struct {
+	A [2]*cycArr
+}
+
+type cycArrElem struct {
+	A [1]any
+}
+
 var cyclic = []struct {
 	name string
 	mk   func() any
@@ -266,6 +276,18 @@ var cyclic = []struct {
 	{"recursive map type containing itself", func() any { m := recMap{}; m["k"] = m; return m }},
 	{"embedded pointer to itself", func() any { a := &cycEmbed{X: 1}; a.cycEmbed = a; return a }},
 	{"*any pointing to itself", func() any { var a any; a = &a; return a }},
+	// cycles that pass through arrays (an array is a value, but its elements may refer back), through
+	// other key kinds and through typed containers of containers
+	{"[][1]any containing itself", func() any { s := make([][1]any, 1); s[0][0] = s; return s }},
+	{"recursive slice-of-arrays type containing itself", func() any { s := make(recArrSlice, 1); s[0][1] = s; return s }},
+	{"[]struct{A [1]any} containing itself", func() any { s := make([]cycArrElem, 2); s[1].A[0] = s; return s }},
+	{"map[string][1]any containing itself", func() any { m := map[string][1]any{}; m["k"] = [1]any{m}; return m }},
+	{"*[1]any pointing to itself", func() any { p := new([1]any); p[0] = p; return p }},
+	{"struct with an array of pointers to itself", func() any { a := &cycArr{}; a.A[1] = a; return a }},
+	{"[]map[string]any whose map holds the slice", func() any { s := []map[string]any{{}}; s[0]["s"] = s; return s }},
+	{"map[int]any containing itself", func() any { m := map[int]any{}; m[7] = m; return m }},
+	{"[][]any whose inner slice holds the outer", func() any { s := [][]any{{nil}}; s[0][0] = s; return s }},
+	{"[1][]any whose slice holds a pointer to the array", func() any { a := new([1][]any); a[0] = []any{a}; return a }},
 	// rho shapes: a long non-cyclic lead (longer than the depth at which cycle detection starts) into a ring
 	{"1500 pointer hops leading into a pointer ring of length 2", func() any {
 		a, b := &cycPtr{V: 1}, &cycPtr{V: 2}
@@ -702,7 +724,7 @@ func Spec() *explore.Spec {
 	return &explore.Spec{
 		ID: "C06",
 		Families: []*explore.Family{
-			{Name: "cycles", ShardDepth: 2, HangSeconds: 60, Body: cycles, Doc: "20 cyclic values (pointer cycles of length 1-3, rings reached through 999-1500 non-cyclic levels, slices / maps / interfaces / recursive slice and map types / embedded pointers containing themselves) x {as is, behind *any, inside []any, inside a map, inside a struct field} x {Marshal, Append, Encoder, MarshalIndent}: an error is returned"},
+			{Name: "cycles", ShardDepth: 2, HangSeconds: 60, Body: cycles, Doc: "30 cyclic values (pointer cycles of length 1-3, cycles passing through arrays, through typed containers of containers and through integer-keyed maps, rings reached through 999-1500 non-cyclic levels, slices / maps / interfaces / recursive slice and map types / embedded pointers containing themselves) x {as is, behind *any, inside []any, inside a map, inside a struct field} x {Marshal, Append, Encoder, MarshalIndent}: an error is returned"},
 			{Name: "ring-targets", ShardDepth: 2, HangSeconds: 60, FatalPerCase: true, Body: ringDecode, Doc: "14 decode targets whose interfaces and pointers form a ring (any / named empty interface / mixed, length 1-3, through **any, entered from outside, struct fields, slice elements, map values, a struct holding itself in a method-bearing interface) x 11 documents x 5 entry points: the call returns, without a panic or a stack overflow"},
 			{Name: "layouts-encode", ShardDepth: 1, Body: layoutsEncode, Doc: "every type shape of C01 plus pointer-shaped leaves nested 1-3 levels in single-field structs and one-element arrays x boundary values x {by value, by pointer, inside []any, as map value, in a typed slice, in a typed map} x {Marshal, Encoder with indent, Append(0)}"},
 			{Name: "layouts-decode", ShardDepth: 1, Body: layoutsDecode, Doc: "the same type shapes x (34 generic documents incl. mismatching, truncated and malformed ones + the encodings of the type's own boundary values) x {Unmarshal into *T and **T, Decoder with UseNumber, Parse with ZeroCopy|DisallowUnknownFields|DontMatchCaseInsensitiveStructFields}"},
